@@ -173,6 +173,12 @@ fn duplicates() -> Vec<(&'static str, &'static str)> {
         ("field-field-same-type", "struct S { a: int32, b: int32, a: int32 }\nfn main() { let s = S { a: 1, b: 2 }; string_println(\"x\") }\n"),
         ("extern-fn", "extern \"go\" \"strings\" \"ToUpper\" zzq(s: string) -> string\nfn zzq(s: string) -> string { s }\nfn main() { string_println(zzq(\"a\")) }\n"),
         ("fn-extern", "fn zzq(s: string) -> string { s }\nextern \"go\" \"strings\" \"ToUpper\" zzq(s: string) -> string\nfn main() { string_println(zzq(\"a\")) }\n"),
+        // a foreign function under the name of a builtin: calls of builtins are recognised by name (also the calls the derives generate)
+        ("extern-named-like-a-builtin-helper", "extern \"go\" \"strings\" \"ToUpper\" int32_to_string(s: int32) -> string\nfn main() { string_println(int32_to_string(1)) }\n"),
+        ("extern-named-like-the-json-helper", "extern \"go\" \"strings\" \"ToUpper\" json_escape_string(s: string) -> string\n#[derive(ToJson)]\nstruct Pj { name: string }\nfn main() { string_println(Pj { name: \"a\" }.to_json()) }\n"),
+        ("extern-named-like-a-builtin-expanded-in-place", "extern \"go\" \"strings\" \"Count\" vec_len(v: Vec[int32]) -> int32\nfn main() { let v: Vec[int32] = vec_new(); string_println(int32_to_string(vec_len(v))) }\n"),
+        ("extern-named-like-the-printing-builtin", "extern \"go\" \"strings\" \"ToUpper\" string_println(s: string) -> unit\nfn main() { string_println(\"a\") }\n"),
+        ("extern-named-like-a-builtin-never-called", "extern \"go\" \"strings\" \"ToLower\" bool_to_string(b: bool) -> string\nfn main() { string_println(\"a\") }\n"),
         ("method-method", "struct S { a: int32 }\nimpl S { fn m(self: S) -> int32 { 1 } fn m(self: S) -> int32 { 2 } }\nfn main() { let s = S { a: 1 }; string_println(int32_to_string(s.m())) }\n"),
         ("trait-impl-method-method", "trait Tq { fn m(Self) -> int32; }\nimpl Tq for int32 { fn m(self: int32) -> int32 { 1 } fn m(self: int32) -> int32 { 2 } }\nfn main() { string_println(int32_to_string(Tq::m(1))) }\n"),
     ]
@@ -296,7 +302,7 @@ impl Family for NamesFamily {
         &["C19", "C02", "C04", "C14"]
     }
     fn rule(&self) -> &'static str {
-        "95 hostile identifiers (Go keywords that goml allows, predeclared identifiers, runtime helper names, the builtins expanded at their call sites, compiler temporaries, generated type/helper names, spellings of the compiler's own type representation, the entry point's names, mangling look-alikes such as a__0) x 20 roles (a variant of a generic enum of an imported package with one instance; a trait method reached by path, by dot, through a bound and through a dyn value; a fn called from a closure that captures a function-typed local, fn / struct / variant of an imported package (these through whole-program compilation and through build + link), fn, param, local, pattern variable, closure parameter, struct, field, enum, variant, trait, method, type parameter, fn next to temporaries, fn called from a closure) plus 34 collision witnesses for generated names (10 of them programs that name their own entry point: called as a branch / function / arm result, in a let, as a statement, in a closure, in a tuple, passed or bound as a value, spawned) (5 for the names of generic instances, 3 for types spelled like a renamed local), plus 28 programs declaring two entities of one name in one namespace (functions, types, traits, parameters of functions/methods/impl methods, variants, fields, extern vs fn, methods of one impl, one binder twice in a tuple / nested / constructor / struct pattern or in a closure's parameter list) that must be rejected, plus 29 programs of nested matches on two enum-typed variables (every word of length <= 4 over {x, y} beginning with x as the scrutinees from the outside in; the innermost level also inside a closure called at once) and 7 programs in which re-matches of the variable stand next to each other inside an arm of a match on it (with a match on the other variable, an if or a closure between or around them), and 364 programs with a local spelled field0..field27, as the last of 1..13 parameters of a function whose body is a struct literal written in another order than declared (whose field values the compiler names); whose Go type switches rebind the scrutinee's identifier inside their cases; oracle: emitted Go passes the Go checker and prints exactly what the twin with a benign identifier prints (= the hard-wired expected output). non-trivial = cases whose hostile name survives into the Go text unescaped or mangled; distinct = distinct source text"
+        "95 hostile identifiers (Go keywords that goml allows, predeclared identifiers, runtime helper names, the builtins expanded at their call sites, compiler temporaries, generated type/helper names, spellings of the compiler's own type representation, the entry point's names, mangling look-alikes such as a__0) x 20 roles (a variant of a generic enum of an imported package with one instance; a trait method reached by path, by dot, through a bound and through a dyn value; a fn called from a closure that captures a function-typed local, fn / struct / variant of an imported package (these through whole-program compilation and through build + link), fn, param, local, pattern variable, closure parameter, struct, field, enum, variant, trait, method, type parameter, fn next to temporaries, fn called from a closure) plus 34 collision witnesses for generated names (10 of them programs that name their own entry point: called as a branch / function / arm result, in a let, as a statement, in a closure, in a tuple, passed or bound as a value, spawned) (5 for the names of generic instances, 3 for types spelled like a renamed local), plus 33 programs declaring two entities of one name in one namespace (5 of them foreign functions under the name of a builtin) (functions, types, traits, parameters of functions/methods/impl methods, variants, fields, extern vs fn, methods of one impl, one binder twice in a tuple / nested / constructor / struct pattern or in a closure's parameter list) that must be rejected, plus 29 programs of nested matches on two enum-typed variables (every word of length <= 4 over {x, y} beginning with x as the scrutinees from the outside in; the innermost level also inside a closure called at once) and 7 programs in which re-matches of the variable stand next to each other inside an arm of a match on it (with a match on the other variable, an if or a closure between or around them), and 364 programs with a local spelled field0..field27, as the last of 1..13 parameters of a function whose body is a struct literal written in another order than declared (whose field values the compiler names); whose Go type switches rebind the scrutinee's identifier inside their cases; oracle: emitted Go passes the Go checker and prints exactly what the twin with a benign identifier prints (= the hard-wired expected output). non-trivial = cases whose hostile name survives into the Go text unescaped or mangled; distinct = distinct source text"
     }
     fn cases(&self, _tier: Tier) -> Box<dyn Iterator<Item = Value> + '_> {
         let mut v = Vec::new();
